@@ -70,6 +70,24 @@ theorem written_is_described (sigs : List Signature) : describes (toJson sigs) s
   have h := all_zip_map_self toJsonSig describesSig describesSig_written sigs
   simpa [describes, toJson] using h
 
+/-- "the saved md5 and abundances are those of the hashes saved next to them": for every list of signatures
+    whose sketches are in a coherent state (`Coherent`: hashes strictly increasing, one abundance per hash, and
+    the md5 the sketch reports is the MD5 of its `ksize` and hashes — what the sketch operations maintain, C01
+    and C13), every sketch object of the written document, read with nothing but the published names, lists
+    strictly increasing hashes, as many abundances as hashes (when it lists abundances at all), and an `md5sum`
+    that is the MD5 of the `ksize` and `mins` written next to it (`which` selects the objects looked at).
+    The run applies `documentDefect` to the text the real writers produce for sketches that were built by
+    add / remove / clear / merge / reload histories on the real code. -/
+theorem written_is_coherent (sigs : List Signature) (which : List (List Bool))
+    (h : ∀ s ∈ sigs, ∀ sk ∈ s.sketches, CoherentSketch sk) : documentDefect (toJson sigs) which = none :=
+  documentDefect_written sigs which h
+
+/-- non-vacuity: a tracked num sketch after a merge that overflowed `num` -/
+example : ∃ m : MinHash, m.mins = [1, 2, 10] ∧ m.abunds = some [5, 7, 5] ∧ Coherent m :=
+  ⟨{ num := 3, ksize := 31, seed := 42, maxHash := 0, mins := [1, 2, 10], abunds := some [5, 7, 5],
+     md5 := md5Of 31 [1, 2, 10], mol := .dna }, rfl, rfl,
+   { sorted := by decide, aligned := (by intro a ha; cases ha; rfl), md5 := by simp only }⟩
+
 /-! ### T-roundtrip — "writing any signature to JSON and loading it back yields a signature with identical
 name, filename, license and, for every sketch, identical parameters, hashes, abundances and md5" -/
 
